@@ -50,7 +50,7 @@ fn parse_file(file: &mut SliceFile, ast: &mut Ast, diagnostics: &mut Diagnostics
     }
 
     // Store the parsed data in the `SliceFile` it was parsed from.
-    file.module = module.map(|m| ast.add_named_element(m));
+    file.module = module.map(|m| ast.add_module(m));
     file.attributes = attributes;
     file.contents = definitions;
 }
